@@ -13,6 +13,7 @@ import AlgoVerif.Proofs.C13Minimal
 import AlgoVerif.Proofs.C13MinimalFull
 import AlgoVerif.Proofs.C13IsoDFA
 import AlgoVerif.Proofs.C13IsoNFA
+import AlgoVerif.Proofs.C13Results
 /-!
 # C13 — automata conversions and combinators compute the intended regular languages
 
@@ -173,7 +174,7 @@ theorem C13_combine_lang (ds : List DFA) (hwf : ∀ d ∈ ds, d.WF) (hne : ∀ d
 theorem C13_combine_finalMap (ds : List DFA) (hwf : ∀ d ∈ ds, d.WF) (hne : ∀ d ∈ ds, d.NoEps)
     (D : DFA) (fm : List (List Int)) (h : combineDFA ds = .ok (D, fm)) (w : Word) (hE : E ∉ w) :
     fm.length = ds.length ∧
-    ∀ (i : Nat) (d : DFA), ds[i]? = some d → ∃ l : List Int, fm[i]? = some l ∧
+    ∀ (i : Nat) (d : DFA), ds[i]? = some d → ∃ l : List Int, fm[i]? = some l ∧ (∀ q ∈ l, (-1 : Int) < q) ∧
       ∀ q, dfaRun D.δ (some D.start) w = some q → (q ∈ l ↔ d.lang w) :=
   combineDFA_finalMap ds hwf hne D fm h w hE
 
@@ -288,3 +289,131 @@ example : ((NFA.new 3 [5]).add 3 97 [3, 5] |>.add 5 E [3]).isomorphic
     ((NFA.new 5 [3]).add 5 97 [5, 3] |>.add 3 E [5]) = .ok true := by decide
 example : ((DFA.new 0 [1, 2]).add 0 97 1 |>.add 1 97 0).isomorphic ((DFA.new 0 [1, 2]).add 0 97 0) = .ok false := by
   decide
+
+/-! ## The results are well-formed again
+
+`DFA.Good` bundles what the theorems above ask of a DFA (key-sorted tables, `-1` not a state, sorted final
+set, no `E`-labelled edge); for NFAs it is `NFA.WF`.  Every automaton built with `New…`/`Add` from state
+ids `≠ -1` and symbols `≠ E` has the property, and every operation returns an automaton that has it — so
+`Accept` of a result decides its language and results can be fed to further operations. -/
+
+theorem C13_api_result_wf (s : Int) (f : List Int) (hf : (-1 : Int) ∉ f) :
+    (DFA.new s f).Good ∧ (NFA.new s f).WF ∧
+    (∀ d : DFA, d.Good → ∀ s a t : Int, s ≠ -1 → a ≠ E → (d.add s a t).Good) ∧
+    (∀ n : NFA, n.WF → ∀ (s a : Int) (nx : List Int), (n.add s a nx).WF) :=
+  ⟨DFA.Good_new s f hf, NFA.WF_new s f, fun _ h s a t hs ha => DFA.Good_add h s a t hs ha,
+   fun _ h s a nx => NFA.WF_add h s a nx⟩
+
+theorem C13_toDFA_result_wf (n : NFA) (d : DFA) (h : n.toDFA = .ok d) : d.Good := n.toDFA_good d h
+theorem C13_toNFA_result_wf (d : DFA) : d.toNFA.WF := d.toNFA_WF
+theorem C13_minimize_result_wf (d d' : DFA) (hg : d.Good) (h : d.minimize = .ok d') : d'.Good := d.minimize_good d' hg h
+theorem C13_elimDead_result_wf (d d' : DFA) (hg : d.Good) (h : d.elimDead = .ok d') : d'.Good := d.elimDead_good d' hg h
+theorem C13_reindex_result_wf (d d' : DFA) (hg : d.Good) (h : d.reindex = .ok d') : d'.Good := d.reindex_good d' hg h
+theorem C13_combine_result_wf (ds : List DFA) (D : DFA) (fm : List (List Int)) (h : combineDFA ds = .ok (D, fm)) :
+    D.Good := combineDFA_good ds D fm h
+theorem C13_clone_result_wf (n : NFA) (d : DFA) (hg : d.Good) : n.clone.WF ∧ d.clone.Good := ⟨n.clone_WF, d.clone_good hg⟩
+theorem C13_union_result_wf (nfas : List NFA) : (NFA.union nfas).WF := NFA.union_WF nfas
+theorem C13_concat_result_wf (nfas : List NFA) : (NFA.concat nfas).WF := NFA.concat_WF nfas
+theorem C13_star_result_wf (n : NFA) : n.star.WF := n.star_WF
+
+example : ((DFA.new 2 [4]).add 2 97 4 |>.add 4 98 2).Good :=
+  DFA.Good_add (DFA.Good_add (DFA.Good_new 2 [4] (by decide)) 2 97 4 (by decide) (by decide)) 4 98 2 (by decide) (by decide)
+
+/-! ## The property with `Accept` on both sides
+
+`n.accept w = .ok true` is "`N.Accept(w)` returns true" for the NFA model (it always returns),
+`d.accept w = true` the same for the DFA model. -/
+
+theorem C13_toDFA_accept (n : NFA) (w : Word) (hE : E ∉ w) :
+    ∃ d, n.toDFA = .ok d ∧ d.Good ∧ (d.accept w = true ↔ n.accept w = .ok true) := by
+  obtain ⟨d, hd, hl⟩ := C13_toDFA_accepts n w hE
+  have hg := n.toDFA_good d hd
+  exact ⟨d, hd, hg, by rw [d.accept_iff_lang hg, n.accept_iff_lang, hl]⟩
+
+theorem C13_toNFA_accept (d : DFA) (hg : d.Good) (w : Word) : d.toNFA.accept w = .ok true ↔ d.accept w = true := by
+  rw [NFA.accept_iff_lang, d.accept_iff_lang hg, DFA.toNFA_lang hg.wf hg.noEps]
+
+theorem C13_clone_accept (n : NFA) (hwf : n.WF) (d : DFA) (hg : d.Good) (w : Word) :
+    (n.clone.accept w = .ok true ↔ n.accept w = .ok true) ∧ (d.clone.accept w = true ↔ d.accept w = true) := by
+  refine ⟨by rw [NFA.accept_iff_lang, NFA.accept_iff_lang, NFA.clone_lang hwf], ?_⟩
+  rw [d.clone.accept_iff_lang (d.clone_good hg), d.accept_iff_lang hg, DFA.clone_lang hg.wf]
+
+theorem C13_minimize_accept (d : DFA) (hg : d.Good) (w : Word) :
+    ∃ d', d.minimize = .ok d' ∧ d'.Good ∧ (d'.accept w = true ↔ d.accept w = true) := by
+  obtain ⟨d', hd', hl⟩ := C13_minimize_accepts d hg.wf hg.fin w
+  have hg' := d.minimize_good d' hg hd'
+  exact ⟨d', hd', hg', by rw [d'.accept_iff_lang hg', d.accept_iff_lang hg, hl]⟩
+
+theorem C13_elimDead_accept (d : DFA) (hg : d.Good) (w : Word) :
+    ∃ d', d.elimDead = .ok d' ∧ d'.Good ∧ (d'.accept w = true ↔ d.accept w = true) := by
+  obtain ⟨d', hd', hl⟩ := C13_elimDead_accepts d hg.wf hg.proper w
+  have hg' := d.elimDead_good d' hg hd'
+  exact ⟨d', hd', hg', by rw [d'.accept_iff_lang hg', d.accept_iff_lang hg, hl]⟩
+
+theorem C13_reindex_accept (d : DFA) (hg : d.Good) (w : Word) :
+    ∃ d', d.reindex = .ok d' ∧ d'.Good ∧ (d'.accept w = true ↔ d.accept w = true) := by
+  obtain ⟨d', hd', hl⟩ := C13_reindex_accepts d hg.wf w
+  have hg' := d.reindex_good d' hg hd'
+  exact ⟨d', hd', hg', by rw [d'.accept_iff_lang hg', d.accept_iff_lang hg, hl]⟩
+
+theorem C13_union_accept (nfas : List NFA) (hwf : ∀ n ∈ nfas, n.WF) (w : Word) (hE : E ∉ w) :
+    (NFA.union nfas).accept w = .ok true ↔ ∃ n ∈ nfas, n.accept w = .ok true := by
+  rw [NFA.accept_iff_lang, NFA.union_lang nfas hwf w hE]
+  constructor
+  · rintro ⟨n, hn, h⟩; exact ⟨n, hn, (n.accept_iff_lang w).2 h⟩
+  · rintro ⟨n, hn, h⟩; exact ⟨n, hn, (n.accept_iff_lang w).1 h⟩
+
+theorem C13_concat_accept (nfas : List NFA) (hwf : ∀ n ∈ nfas, n.WF) (w : Word) :
+    (NFA.concat nfas).accept w = .ok true ↔ Lang.concatAll (nfas.map NFA.acceptsL) w := by
+  rw [NFA.accept_iff_lang, NFA.concat_lang nfas hwf w]
+  have : nfas.map NFA.acceptsL = nfas.map NFA.lang := List.map_congr_left (fun n _ => n.acceptsL_eq)
+  rw [this]
+
+theorem C13_star_accept (n : NFA) (hwf : n.WF) (w : Word) (hE : E ∉ w) :
+    n.star.accept w = .ok true ↔ Lang.star n.acceptsL w := by
+  rw [NFA.accept_iff_lang, n.star_lang hwf w hE, n.acceptsL_eq]
+
+/-- `CombineDFA` with `Accept` and `Next` as the code exposes them: the state `Next` leads to after `w`
+(`-1` when the run dies) is listed in `finalMap[i]` iff operand `i` accepts `w`. -/
+theorem C13_combine_accept (ds : List DFA) (hg : ∀ d ∈ ds, d.Good) (w : Word) (hE : E ∉ w) :
+    ∃ D fm, combineDFA ds = .ok (D, fm) ∧ D.Good ∧ (D.accept w = true ↔ ∃ d ∈ ds, d.accept w = true) ∧
+      fm.length = ds.length ∧
+      ∀ (i : Nat) (d : DFA), ds[i]? = some d → ∃ l : List Int, fm[i]? = some l ∧
+        (w.foldl D.next D.start ∈ l ↔ d.accept w = true) := by
+  obtain ⟨⟨D, fm⟩, h⟩ := combineDFA_ok ds
+  have hG := combineDFA_good ds D fm h
+  have hlang := combineDFA_lang ds (fun d hd => (hg d hd).wf) (fun d hd => (hg d hd).noEps) D fm h w hE
+  obtain ⟨hlen, hmap⟩ := combineDFA_finalMap ds (fun d hd => (hg d hd).wf) (fun d hd => (hg d hd).noEps) D fm h w hE
+  refine ⟨D, fm, h, hG, ?_, hlen, ?_⟩
+  · rw [D.accept_iff_lang hG, hlang]
+    constructor
+    · rintro ⟨d, hd, hl⟩; exact ⟨d, hd, (d.accept_iff_lang (hg d hd) w).2 hl⟩
+    · rintro ⟨d, hd, hl⟩; exact ⟨d, hd, (d.accept_iff_lang (hg d hd) w).1 hl⟩
+  · intro i d hd
+    have hdm : d ∈ ds := List.mem_of_getElem? hd
+    obtain ⟨l, hl, hpos, hq⟩ := hmap i d hd
+    refine ⟨l, hl, ?_⟩
+    rw [D.foldl_next hG.proper.2, d.accept_iff_lang (hg d hdm)]
+    cases hr : dfaRun D.δ (some D.start) w with
+    | some q => simpa using hq q hr
+    | none =>
+      simp only [Option.getD_none]
+      constructor
+      · intro hm; have := hpos _ hm; omega
+      · intro hdl
+        have : D.lang w := hlang.2 ⟨d, hdm, hdl⟩
+        obtain ⟨f, hf, _⟩ := this
+        rw [hr] at hf; simp at hf
+
+/-- End to end, on `Accept` only: `Minimize(ToDFA(Concat(ns…)))` always exists and accepts `w` iff `w` splits
+into words the operands accept, one after the other. -/
+theorem C13_chain_accept (nfas : List NFA) (hwf : ∀ n ∈ nfas, n.WF) (w : Word) (hE : E ∉ w) :
+    ∃ d m, (NFA.concat nfas).toDFA = .ok d ∧ d.minimize = .ok m ∧
+      (m.accept w = true ↔ Lang.concatAll (nfas.map NFA.acceptsL) w) := by
+  obtain ⟨d, hd, hg, h1⟩ := C13_toDFA_accept (NFA.concat nfas) w hE
+  obtain ⟨m, hm, _, h2⟩ := C13_minimize_accept d hg w
+  exact ⟨d, m, hd, hm, by rw [h2, h1, C13_concat_accept nfas hwf w]⟩
+
+example : let a := NFA.new 0 [0] |>.add 0 97 [0]; let b := NFA.new 0 [1] |>.add 0 98 [1]
+    (((NFA.concat [a, b]).toDFA.bind DFA.minimize).map (fun m => (m.accept [97, 97, 98], m.accept [98, 97])))
+      = .ok (true, false) := by decide
